@@ -20,6 +20,8 @@ package main
 import (
 	"fmt"
 	"go/ast"
+	"reflect"
+	"regexp"
 	"go/token"
 	"go/types"
 	"sort"
@@ -186,6 +188,8 @@ func (e *Engine) evalRule(r *StructRule) []*Obligation {
 			out = append(out, e.structObl(r, fnk, ok, msg))
 		}
 		return out
+	case "decode_cells":
+		return e.ruleDecodeCells(r)
 	case "callers":
 		// callers Func allowed=F,G,.. : in this package only the listed functions (and the closures
 		// inside them) call Func directly.
@@ -909,4 +913,127 @@ func selectArms(fn *ssa.Function, needDone bool, recv []string) (bool, string) {
 		}
 	}
 	return true, fmt.Sprintf("%d blocking selects, each with the required wake-up arms; no bare channel operation", n)
+}
+
+
+// decode_cells: the scalar decode handlers are a table of cells, one per (kind, pointer-or-not):
+//   - the handler named <kind>[Ptr]Decode makes exactly one decode call, to
+//     (*Decoder).decode<Kind>[Ptr], and hands it p converted to *T (resp. **T) for that kind's T;
+//   - decodeHandlers[k] is <k>Decode and decodePtrHandlers[k] is <k>PtrDecode for every scalar kind k.
+// A cell that calls its neighbour, or casts to the wrong pointer type, decodes into memory of the
+// wrong shape (C06, C01).
+func (e *Engine) ruleDecodeCells(r *StructRule) []*Obligation {
+	var out []*Obligation
+	re := regexp.MustCompile(`^([a-z0-9]+?)(Ptr)?Decode$`)
+	cap1 := func(s string) string { return strings.ToUpper(s[:1]) + s[1:] }
+	ncells := 0
+	for _, fn := range e.pkgFunctions(r.Pkg) {
+		if fn.Parent() != nil || fn.Signature.Recv() != nil {
+			continue
+		}
+		m := re.FindStringSubmatch(fn.Name())
+		if m == nil || m[1] == "invalid" || fn.Signature.Params().Len() != 3 {
+			continue
+		}
+		want := "decode" + cap1(m[1]) + m[2]
+		var calls []*ssa.Function
+		var castOK = true
+		var castMsg string
+		for _, b := range fn.Blocks {
+			for _, in := range b.Instrs {
+				if ci, ok := in.(*ssa.Call); ok {
+					if cal := ci.Call.StaticCallee(); cal != nil && strings.HasPrefix(cal.Name(), "decode") {
+						calls = append(calls, cal)
+						// the last argument is p converted: check the target type
+						args := ci.Call.Args
+						last := args[len(args)-1]
+						pt, ok := last.Type().Underlying().(*types.Pointer)
+						depth := 0
+						var base types.Type
+						for ok {
+							depth++
+							base = pt.Elem()
+							pt, ok = base.Underlying().(*types.Pointer)
+						}
+						wantDepth := 1
+						if m[2] == "Ptr" {
+							wantDepth = 2
+						}
+						bn := types.TypeString(base, nil)
+						if bn == "interface{}" {
+							bn = "interface"
+						}
+						if depth != wantDepth || bn != m[1] {
+							castOK = false
+							castMsg = fmt.Sprintf("hands %s to the decoder, want %s%s", last.Type(), strings.Repeat("*", wantDepth), m[1])
+						}
+					}
+				}
+			}
+		}
+		ncells++
+		switch {
+		case len(calls) != 1:
+			out = append(out, e.structObl(r, fn.Name(), false, fmt.Sprintf("%d decode calls, want exactly one", len(calls))))
+		case calls[0].Name() != want:
+			out = append(out, e.structObl(r, fn.Name(), false, "calls "+calls[0].Name()+", want "+want))
+		case !castOK:
+			out = append(out, e.structObl(r, fn.Name(), false, castMsg))
+		default:
+			out = append(out, e.structObl(r, fn.Name(), true, "calls "+want+" with the matching pointer type"))
+		}
+	}
+	// the two tables
+	for _, fn := range e.pkgFunctions(r.Pkg) {
+		if !strings.HasPrefix(fn.Name(), "init") {
+			continue
+		}
+		// stores of function values into elements of an array that ends up in decodeHandlers / decodePtrHandlers
+		for _, b := range fn.Blocks {
+			for _, in := range b.Instrs {
+				st, ok := in.(*ssa.Store)
+				if !ok {
+					continue
+				}
+				ia, ok := st.Addr.(*ssa.IndexAddr)
+				if !ok {
+					continue
+				}
+				k, ok := ia.Index.(*ssa.Const)
+				if !ok {
+					continue
+				}
+				var f *ssa.Function
+				switch v := st.Val.(type) {
+				case *ssa.Function:
+					f = v
+				case *ssa.ChangeType:
+					f, _ = v.X.(*ssa.Function)
+				case *ssa.MakeClosure:
+					f, _ = v.Fn.(*ssa.Function)
+				}
+				if f == nil {
+					continue
+				}
+				m := re.FindStringSubmatch(f.Name())
+				if m == nil || m[1] == "invalid" {
+					continue
+				}
+				if n := namedOf(ia.X.Type().Underlying().(*types.Pointer).Elem().(*types.Array).Elem()); n == nil || n.Obj().Name() != "DecodeHandler" {
+					continue
+				}
+				kind := strings.ToLower(reflect.Kind(k.Int64()).String())
+				name := "table[" + kind + "]=" + f.Name()
+				if kind != m[1] {
+					out = append(out, e.structObl(r, name, false, "handler of another kind registered for "+kind))
+				} else {
+					out = append(out, e.structObl(r, name, true, "handler registered under its own kind"))
+				}
+			}
+		}
+	}
+	if ncells == 0 {
+		out = append(out, e.structObl(r, "none", false, "no decode handler cells found"))
+	}
+	return out
 }
